@@ -8,8 +8,9 @@ ID = 'C02'
 FOUNDATIONS = ['harness.foundation.pybody']   # the compositions of Model/C02.lean are tied to the current morph.py bodies
 LEVEL = 'proof'
 RULE = ('corpus; subm: all 65536 pairs of int8 and of uint8 values (both tiers) and boundary-dense random pairs of the '
-        'wider dtypes and bool; operators: random 1-3 D images x {bool, uint8, uint16, uint32, uint64} (plus some signed '
-        'dtypes, model comparison only) x 7 layouts x {cross, boxes of odd sides <= 5, disks r=1..3} x pairs (f,g) with '
+        'wider dtypes and bool; operators: random 1-3 D images x {bool, uint8, uint16, uint32, uint64, int8, int16, int32, int64} '
+        'x 7 layouts x {cross, boxes of odd sides <= 5, disks r=1..3, user-supplied even-sided / asymmetric / non-flat arrays} '
+        'x {fresh output, dirty out= buffer for open/close} x pairs (f,g) with '
         'f<=g, f>=g, unrelated, g ~ dilate(f), f ~ erode(g); about 70 % of the unsigned images are clear of the saturation '
         'limits by construction. Laws are evaluated on the real outputs; every real output is also compared with the Lean '
         'model. Non-trivial = open(f) != f or close(f) != f; distinct = distinct protocol line + layouts.')
@@ -17,7 +18,12 @@ ASSUMPTIONS = ['laws are judged for bool images and for unsigned images whose va
                'height of the element = 1 for the regular elements): "clear of the saturation limits" for two composed operators',
                'regular structuring elements only: centred cross (get_structuring_elem), boxes of odd sides up to 5, disks of radius 1-3',
                'cdilate/cerode bounds and top-hat = clamp(difference) are judged for every bool/unsigned input, clear or not',
-               'signed dtypes: only model = implementation is compared (the statement speaks of bool and unsigned images)',
+               'signed dtypes and user-supplied (non-regular) elements are outside the statement: every real output is compared with the '
+               'model, and the laws proved in Lean for them (C02_*_signed, the every-element theorems C02_adjunction / C02_open_* / '
+               'C02_close_* / C02_open_close_increasing) are judged on the real outputs inside exactly the proved hypotheses '
+               '(no pixel at hi / f + h < hi / centre is a member) as kind=model findings keyed proved-law:*',
+               'open/close with out=: the buffer is C-contiguous, of the dtype and shape of f (what _get_output accepts), arbitrary contents; '
+               'the result must be that very buffer and equal the buffer program of the Lean model (= the pure composition, C02_open_close_buffer_program)',
                'f and g have the same dtype and shape; array sizes < 2^31']
 EXHAUSTIVE = {'thorough': True, 'quick': True}
 TRUSTED = ['numpy (array construction, layout views, elementwise comparisons of the real outputs)']
@@ -30,8 +36,12 @@ def _arr(vals, dtype, shape):
 
 
 def _line(case):
-    return (f"c02 kind=ops dt={gen.DT_NAME[case['dtype']]} shape={gen.enc_shape(case['shape'])} f={gen.enc_arr(case['f'])} "
-            f"g={gen.enc_arr(case['g'])} bshape={gen.enc_shape(case['bshape'])} bc={gen.enc_arr(case['bc'])} n={case['n']}")
+    s = (f"c02 kind=ops dt={gen.DT_NAME[case['dtype']]} shape={gen.enc_shape(case['shape'])} f={gen.enc_arr(case['f'])} "
+         f"g={gen.enc_arr(case['g'])} bshape={gen.enc_shape(case['bshape'])} bc={gen.enc_arr(case['bc'])} n={case['n']}")
+    if case.get('outbuf'):
+        F = np.zeros(case['shape'])
+        s += f" buf1={gen.enc_arr(_ints(_dirty(case, F, 0)))} buf2={gen.enc_arr(_ints(_dirty(case, F, 3)))}"
+    return s
 
 
 def _ints(a):
@@ -47,18 +57,131 @@ def _le(a, b):
     return bool(np.all(_O(a) <= _O(b)))
 
 
+def _dirty(case, F, salt):
+    """a C-contiguous buffer of the dtype and shape of F with arbitrary contents (replayable from the case)"""
+    vals = case['outbuf']
+    n = int(np.prod(F.shape))
+    lo, hi = gen.dt_range(case['dtype'])
+    seq = [vals[(i * 7 + salt) % len(vals)] for i in range(n)]
+    return _arr([min(hi, max(lo, v)) for v in seq], case['dtype'], F.shape)
+
+
 def _real(case, F, G, Bc):
     import mahotas as mh
     out = {}
     out['erode'] = mh.erode(F, Bc)
     out['dilate'] = mh.dilate(F, Bc)
-    out['open'] = mh.open(F, Bc)
-    out['close'] = mh.close(F, Bc)
+    if case.get('outbuf'):
+        b1, b2 = _dirty(case, F, 0), _dirty(case, F, 3)
+        out['open'] = mh.open(F, Bc, out=b1)
+        out['close'] = mh.close(F, Bc, out=b2)
+        out['_same_buffer'] = (out['open'] is b1) and (out['close'] is b2)
+        out['_bufs'] = (_ints(_dirty(case, F, 0)), _ints(_dirty(case, F, 3)))
+    else:
+        out['open'] = mh.open(F, Bc)
+        out['close'] = mh.close(F, Bc)
+    out['_extra'] = {}
+    if case.get('outbuf'):     # the other wrappers that take `out=`: a separate pre-dirtied buffer
+        b3, b4, b5 = _dirty(case, F, 5), _dirty(case, F, 6), _dirty(case, F, 2)
+        out['_extra']['thopen:out=fresh-dirty'] = (mh.morph.tophat_open(F, Bc, out=b3), b3, 'thopen')
+        out['_extra']['thclose:out=fresh-dirty'] = (mh.morph.tophat_close(F, Bc, out=b4), b4, 'thclose')
+        out['_extra']['cerode:out=fresh-dirty'] = (mh.cerode(F, G, Bc, out=b5), b5, 'cerode')
+    if case.get('alias'):      # `out=` is the input image itself (elementwise last stage: the top-hats)
+        f1, f2 = np.ascontiguousarray(F).copy(), np.ascontiguousarray(F).copy()
+        out['_extra']['thopen:out=alias-f'] = (mh.morph.tophat_open(f1, Bc, out=f1), f1, 'thopen')
+        out['_extra']['thclose:out=alias-f'] = (mh.morph.tophat_close(f2, Bc, out=f2), f2, 'thclose')
+        # in place on the image (and, for cerode, on the condition): accepted by _get_output; since fix be1beaf the wrappers copy
+        # the input the kernel would otherwise read while overwriting it
+        f3, f4, f5, g5 = (np.ascontiguousarray(F).copy() for _ in range(3)), None, None, None
+        f3, f4, f5 = f3
+        g5 = np.ascontiguousarray(G).copy()
+        out['_extra']['open:out=alias-f'] = (mh.open(f3, Bc, out=f3), f3, 'open')
+        out['_extra']['close:out=alias-f'] = (mh.close(f4, Bc, out=f4), f4, 'close')
+        out['_extra']['cerode:out=alias-f'] = (mh.cerode(f5, G, Bc, out=f5), f5, 'cerode')
+        out['_extra']['cerode:out=alias-g'] = (mh.cerode(F, g5, Bc, out=g5), g5, 'cerode')
     out['cerode'] = mh.cerode(F, G, Bc)
     out['cdilate'] = mh.cdilate(F, G, Bc, case['n'])
     out['thopen'] = mh.morph.tophat_open(F, Bc)
     out['thclose'] = mh.morph.tophat_close(F, Bc)
     return out
+
+
+def _proved_laws(case, dtype, f0, g0, F, G, Bc, R):
+    """signed dtypes / user-supplied elements (outside the statement of C02): the laws PROVED for them in Lean, judged on the real
+    outputs inside exactly the proved hypotheses. Findings are kind='model' (the laws hold on the model; a failure means the
+    implementation left the model), keyed proved-law:*."""
+    import mahotas as mh
+    fnd = []
+    lo, hi = gen.dt_range(dtype)
+    hs = [int(v) for v in case['bc']]
+    if dtype == 'bool':
+        adm = all(h in (0, 1) for h in hs)
+        member = [h != 0 for h in hs]
+    else:
+        adm = all(h == lo or 0 <= h <= hi for h in hs)      # AdmissibleEntry (unsigned: lo = 0 is itself a height-range value)
+        member = [h != lo for h in hs]
+    info = dict(proved_laws='element-not-admissible')
+    if not adm:
+        return fnd, info
+    H = [h for h, m in zip(hs, member) if m]
+    Hmax = max(H) if H else 0
+    isb = dtype == 'bool'
+    fO, gO = _O(f0), _O(g0)
+    fmax, gmax = int(fO.max()), int(gO.max())
+    hiclear_f = isb or fmax < hi                                  # HiClear f
+    below_f = isb or not H or fmax + Hmax < hi                    # f i + h < hi for every member height
+    centre = int(np.ravel_multi_index(tuple(b // 2 for b in case['bshape']), tuple(case['bshape']))) if case['bshape'] else 0
+    centre_member = bool(member[centre]) and (isb or hs[centre] >= 0)
+
+    def bad(key, **detail):
+        fnd.append(dict(kind='model', key='proved-law:' + key, detail=detail))
+    if hiclear_f:      # C02_open_laws_signed / C02_open_anti_extensive + C02_open_idempotent (every element)
+        if not _le(R['open'], f0):
+            bad('open:anti-extensive', open=_ints(R['open']))
+        oo = mh.open(R['open'], Bc)
+        if not np.array_equal(oo, R['open']):
+            bad('open:idempotent', once=_ints(R['open']), twice=_ints(oo))
+    if below_f:        # C02_close_laws_signed via C02_dilate_below_max(_signed)
+        if not _le(f0, R['close']):
+            bad('close:extensive', close=_ints(R['close']))
+        cc = mh.close(R['close'], Bc)
+        if not np.array_equal(cc, R['close']):
+            bad('close:idempotent', once=_ints(R['close']), twice=_ints(cc))
+    # C02_open_close_increasing(_signed): no hypothesis
+    m = np.minimum(f0, g0)
+    M = gen.relayout(m, case.get('layout', 'C'))
+    if not _le(mh.open(M, Bc), mh.open(G, Bc)):
+        bad('open:increasing')
+    if not _le(mh.close(M, Bc), mh.close(G, Bc)):
+        bad('close:increasing')
+    # C02_adjunction(_signed): NoSat for every pair that meets  <=  no pixel of g at hi, or f + h <= hi everywhere
+    if isb or gmax < hi or not H or fmax + Hmax <= hi:
+        lhs = _le(R['dilate'], g0)
+        rhs = _le(f0, mh.erode(G, Bc))
+        if lhs != rhs:
+            bad('adjunction', dilate_le_g=lhs, f_le_erode=rhs)
+        info['adjunction'] = 'both' if lhs else 'neither'
+    info['proved_laws'] = '+'.join(['increasing'] + [n for n, c in (('open', hiclear_f), ('close', below_f), ('bounds', centre_member)) if c])
+    if centre_member:  # C02_cerode_cdilate_bounds_signed / C02_cerode_bounds + C02_cdilate_bounds
+        mn, mx = np.minimum(f0, g0), np.maximum(f0, g0)
+        if not (_le(mn, R['cdilate']) and _le(R['cdilate'], g0)):
+            bad('cdilate:bounds', got=_ints(R['cdilate']))
+        if not (_le(g0, R['cerode']) and _le(R['cerode'], mx)):
+            bad('cerode:bounds', got=_ints(R['cerode']))
+    # C02_subm_image on the real compositions (every input) ...
+    d1 = np.clip(fO - _O(R['open']), lo, hi)
+    d2 = np.clip(_O(R['close']) - fO, lo, hi)
+    if not np.array_equal(_O(R['thopen']), d1):
+        bad('tophat_open:def', got=_ints(R['thopen']), expected=_ints(d1))
+    if not np.array_equal(_O(R['thclose']), d2):
+        bad('tophat_close:def', got=_ints(R['thclose']), expected=_ints(d2))
+    # ... and C02_tophats_signed: min(difference, hi) under the hypotheses of both opening and closing laws
+    if hiclear_f and below_f:
+        if not np.array_equal(_O(R['thopen']), np.minimum(fO - _O(R['open']), hi)):
+            bad('tophat_open:min', got=_ints(R['thopen']))
+        if not np.array_equal(_O(R['thclose']), np.minimum(_O(R['close']) - fO, hi)):
+            bad('tophat_close:min', got=_ints(R['thclose']))
+    return fnd, info
 
 
 def _eval_ops(cases):
@@ -83,8 +206,25 @@ def _eval_ops(cases):
                 fnd.append(dict(kind='model', key=f'{op}-model', detail=dict(got=_ints(R[op]), model=core.ints(drv[op]))))
             if R[op].dtype != F.dtype or R[op].shape != F.shape:
                 fnd.append(dict(kind='property', key=f'{op}:dtype-shape', detail=dict(dtype=str(R[op].dtype))))
-        lawful = dtype == 'bool' or dtype in UNSIGNED
+        regular = case.get('elem', 'cross') != 'user'
+        lawful = (dtype == 'bool' or dtype in UNSIGNED) and regular   # what the statement of C02 covers
         clearf, clearg = drv['clearf'] == '1', drv['clearg'] == '1'
+        if case.get('outbuf'):
+            if not R['_same_buffer']:
+                fnd.append(dict(kind='model', key='out-buffer:not-returned', detail={}))
+            for op, buf in zip(('openbuf', 'closebuf'), R['_bufs']):
+                if core.ints(drv[op]) != _ints(R[op[:-3]]):
+                    fnd.append(dict(kind='model', key=f'{op}-model', detail=dict(got=_ints(R[op[:-3]]), model=core.ints(drv[op]), buf=buf)))
+        for key, (got, buf, op) in R['_extra'].items():
+            # same specification as the out-less call (which is itself judged against the model and the definition)
+            if got is not buf:
+                fnd.append(dict(kind='model', key=f'{key}:not-returned', detail={}))
+            if _ints(got) != _ints(R[op]):
+                fnd.append(dict(kind='property' if lawful else 'model', key=key, detail=dict(got=_ints(got), without_out=_ints(R[op]))))
+        pl = {}
+        if not lawful:
+            pf, pl = _proved_laws(case, dtype, f0, g0, F, G, Bc, R)
+            fnd.extend(pf)
 
         def bad(key, **detail):
             fnd.append(dict(kind='property', key=key, detail=detail))
@@ -143,8 +283,10 @@ def _eval_ops(cases):
                         sig=line + case.get('layout', 'C') + case.get('layoutg', 'C'),
                         tags=dict(kind='ops', dtype=dtype, ndim=len(case['shape']), layout=case.get('layout', 'C'),
                                   elem=case.get('elem', '?'), pair=case.get('pair', '?'), symstar=drv['symstar'],
-                                  domain=('clear' if (clearf and clearg) else 'f-clear' if clearf else 'saturating') if lawful else 'signed',
-                                  adjunction=tag_adj)))
+                                  domain=('clear' if (clearf and clearg) else 'f-clear' if clearf else 'saturating') if lawful
+                                  else ('signed' if dtype not in UNSIGNED and dtype != 'bool' else 'user-elem'),
+                                  out=('+'.join(n for n, c in (('fresh-dirty', case.get('outbuf')), ('alias-f', case.get('alias'))) if c) or 'none'),
+                                  size=case.get('size', 'small'), adjunction=pl.get('adjunction', tag_adj), proved_laws=pl.get('proved_laws', 'statement'))))
     return res
 
 
@@ -170,27 +312,55 @@ def _eval_subm(case):
     A = _arr(alla, dtype, (len(alla),))
     B = _arr(allb, dtype, (len(allb),))
     layout = case.get('layout', 'C')
+    mode = case.get('outmode', 'none')
     Al, Bl = gen.relayout(A, layout), gen.relayout(B, layout)
-    Bb = Bl.copy()
-    got = _ints(mh.morph.subm(Al, Bl))
-    drv = core.drive([f"c02 kind=subm dt={gen.DT_NAME[dtype]} a={gen.enc_arr(alla)} b={gen.enc_arr(allb)}"])[0]
+    Ab, Bb = Al.copy(), Bl.copy()
+    # `out=`: _get_output accepts a C-contiguous array of the dtype and shape of `a`. alias-a is the documented in-place form
+    # ("Pass a as output to subtract in-place"); alias-b and a pre-dirtied separate buffer are accepted by the wrapper as well.
+    if mode == 'alias-a':
+        Al = np.ascontiguousarray(Al).copy()
+        res = mh.morph.subm(Al, Bl, out=Al); same = res is Al
+    elif mode == 'alias-b':
+        Bl = np.ascontiguousarray(Bl).copy()
+        res = mh.morph.subm(Al, Bl, out=Bl); same = res is Bl
+    elif mode == 'fresh-dirty':
+        lo_, hi_ = gen.dt_range(dtype)
+        buf = _arr([(lo_ + (i * 2654435761 + 12345) % (hi_ - lo_ + 1)) if dtype != 'bool' else (i + 1) % 2 for i in range(len(alla))],
+                   dtype, (len(alla),))
+        bufints = _ints(buf)
+        res = mh.morph.subm(Al, Bl, out=buf); same = res is buf
+    else:
+        res = mh.morph.subm(Al, Bl); same = True
+    got = _ints(res)
+    extra = '' if mode == 'none' else f" outmode={mode}" + (f" buf={gen.enc_arr(bufints)}" if mode == 'fresh-dirty' else '')
+    drv = core.drive([f"c02 kind=subm dt={gen.DT_NAME[dtype]} a={gen.enc_arr(alla)} b={gen.enc_arr(allb)}{extra}"])[0]
     model, spec = core.ints(drv['model']), core.ints(drv['spec'])
     fnd = []
+    sfx = '' if mode == 'none' else f':out={mode}'
+    if mode != 'none' and core.ints(drv['prog']) != got:
+        # the wrapper as a buffer program (submBuf; C02_subm_buffer_program proves it equal to the pure subtraction in every mode)
+        fnd.append(dict(kind='model', key=f'subm-prog:{dtype}{sfx}', detail=dict(n=sum(1 for x, y in zip(core.ints(drv['prog']), got) if x != y))))
     bad = [i for i, (x, y) in enumerate(zip(got, spec)) if x != y]
     if bad:
         i = bad[0]
-        fnd.append(dict(kind='property', key=f'subm:{dtype}', detail=dict(a=alla[i], b=allb[i], got=got[i], spec=spec[i], n=len(bad)),
-                        case=dict(block='subm-rand', dtype=dtype, a=[alla[i]], b=[allb[i]], layout=layout)))
+        fnd.append(dict(kind='property', key=f'subm:{dtype}{sfx}', detail=dict(a=alla[i], b=allb[i], got=got[i], spec=spec[i], n=len(bad)),
+                        # the reduced witness is the single failing pair -- except in the size-threshold stream, where the length is the point
+                        case=(dict(case) if case.get('size') == 'threshold' else
+                              dict(block='subm-rand', dtype=dtype, a=[alla[i]], b=[allb[i]], layout=layout, outmode=mode))))
     badm = [i for i, (x, y) in enumerate(zip(got, model)) if x != y]
     if badm and not bad:
         i = badm[0]
-        fnd.append(dict(kind='model', key=f'subm-model:{dtype}', detail=dict(a=alla[i], b=allb[i], got=got[i], model=model[i])))
-    if not np.array_equal(Bb, Bl):
+        fnd.append(dict(kind='model', key=f'subm-model:{dtype}{sfx}', detail=dict(a=alla[i], b=allb[i], got=got[i], model=model[i])))
+    if not same:
+        fnd.append(dict(kind='model', key=f'subm:out-not-returned{sfx}', detail={}))
+    if mode != 'alias-b' and not np.array_equal(Bb, Bl):
         fnd.append(dict(kind='property', key='subm:second-argument-modified', detail={}))
+    if mode != 'alias-a' and not np.array_equal(Ab, Al):
+        fnd.append(dict(kind='property', key='subm:first-argument-modified', detail={}))
     lo, hi = gen.dt_range(dtype)
     sat = sum(1 for x, y in zip(alla, allb) if not (lo <= x - y <= hi))
     return dict(findings=fnd, n=len(alla), nontrivial_n=sat, nontrivial=False, sig=None,
-                tags=dict(kind=case['block'], dtype=dtype, layout=layout))
+                tags=dict(kind=case['block'], dtype=dtype, layout=layout, out=mode, size=case.get('size', 'small')))
 
 
 def evaluate(cases):
@@ -213,9 +383,28 @@ def _corpus():
 
 # ---------------------------------------------------------------------------------------------- generators
 
-def _elem(rng, ndim):
-    """(bshape, 0/1 entries, label, usenone) of a regular element"""
+def _user_elem(rng, ndim, dtype):
+    """a user-supplied array: even sides, asymmetric footprints, non-flat heights (for signed dtypes the marker lo = absent)"""
+    lo, hi = gen.dt_range(dtype)
+    sides = [rng.choice([1, 2, 2, 3, 4]) for _ in range(ndim)]
+    n = int(np.prod(sides))
+    style = rng.choice(['flat', 'nonflat', 'nonflat', 'sparse'])
+    if dtype == 'bool' or style == 'flat':
+        bc = [1 if rng.random() < 0.6 else 0 for _ in range(n)]
+    elif style == 'sparse':
+        bc = [rng.choice([0, 0, 0, 1, 2, 5]) for _ in range(n)]
+    else:
+        bc = [rng.choice([0, 1, 1, 2, 3]) for _ in range(n)]
+    if lo < 0 and rng.random() < 0.6:      # signed: some cells really absent
+        bc = [lo if rng.random() < 0.3 else h for h in bc]
+    return sides, bc, 'user', False
+
+
+def _elem(rng, ndim, dtype='uint8'):
+    """(bshape, 0/1 entries, label, usenone) of a regular element, or a user-supplied one (label 'user')"""
     import mahotas as mh
+    if rng.random() < 0.2:
+        return _user_elem(rng, ndim, dtype)
     r = rng.random()
     if r < 0.35:
         A = np.zeros((3,) * ndim, np.uint8)
@@ -238,14 +427,24 @@ def _clear_image(rng, shape, dtype):
     return [base + rng.randint(0, span) for _ in range(n)], base, span
 
 
+def _clear_image_signed(rng, shape, dtype):
+    """signed values in a narrow band (around the minimum, negative, around 0, positive, just below the maximum): the band keeps
+    opening/closing non-trivial and both outcomes of the adjunction frequent; the top band stays 5 below hi"""
+    lo, hi = gen.dt_range(dtype)
+    n = int(np.prod(shape))
+    span = rng.choice([1, 2, 3, 6, 20])
+    base = rng.choice([lo, lo + 1, -span - 2, -2, 0, hi - 5 - span, rng.randint(lo, hi - 5 - span), rng.randint(-40, 40)])
+    return [base + rng.randint(0, span) for _ in range(n)], base, span
+
+
 def _ops_case(rng):
     import mahotas as mh
     r = rng.random()
-    dtype = 'bool' if r < 0.25 else rng.choice(UNSIGNED) if r < 0.9 else rng.choice(['int8', 'int16', 'int32', 'int64'])
+    dtype = 'bool' if r < 0.22 else rng.choice(UNSIGNED) if r < 0.72 else rng.choice(['int8', 'int16', 'int32', 'int64'])
     shape = list(gen.small_shape(rng, maxlen=6))
     ndim = len(shape)
     n = int(np.prod(shape))
-    bshape, bc, label, usenone = _elem(rng, ndim)
+    bshape, bc, label, usenone = _elem(rng, ndim, dtype)
     lo, hi = gen.dt_range(dtype)
     pair = rng.choice(['le', 'ge', 'unrelated', 'dil', 'dil-1', 'ero', 'ero+1'])
     if dtype == 'bool':
@@ -256,6 +455,10 @@ def _ops_case(rng):
         f, base, span = _clear_image(rng, shape, dtype)
         g = [min(hi - 2, max(2, base + rng.randint(-1, span + 1))) for _ in range(n)]
         cl = lambda v: min(hi - 2, max(2, v))
+    elif dtype not in UNSIGNED and rng.random() < 0.7:
+        f, base, span = _clear_image_signed(rng, shape, dtype)
+        g = [min(hi - 5, max(lo, base + rng.randint(-1, span + 1))) for _ in range(n)]
+        cl = lambda v: min(hi - 5, max(lo, v))
     else:
         f = _ints(gen.rand_int_array(rng, shape, dtype))
         g = _ints(gen.rand_int_array(rng, shape, dtype))
@@ -279,8 +482,14 @@ def _ops_case(rng):
             i = rng.randrange(n); f[i] = cl(f[i] + 1)
         elif rng.random() < 0.5:
             f = [cl(v - rng.choice([0, 0, 1])) for v in f]
-    return dict(dtype=dtype, shape=shape, f=f, g=g, bshape=bshape, bc=bc, n=rng.choice([0, 1, 1, 2, 3, 7]),
+    case = dict(dtype=dtype, shape=shape, f=f, g=g, bshape=bshape, bc=bc, n=rng.choice([0, 1, 1, 2, 3, 7]),
                 layout=rng.choice(gen.LAYOUTS), layoutg=rng.choice(gen.LAYOUTS), elem=label, pair=pair, usenone=usenone)
+    if rng.random() < 0.3:     # open/close write into a caller buffer with arbitrary old contents
+        bv = gen.boundary_values(dtype)
+        case['outbuf'] = [rng.choice(bv) if rng.random() < 0.5 else rng.randint(lo, hi) for _ in range(rng.choice([1, 3, 8]))]
+    if rng.random() < 0.3:     # top-hats written over their own input
+        case['alias'] = True
+    return case
 
 
 def _subm_rand(rng, dtype, n):
@@ -302,6 +511,46 @@ def _subm_rand(rng, dtype, n):
     return a, b
 
 
+def _threshold_cases(rng, tier):
+    """SIZE-THRESHOLD stream: open/close/top-hats/conditional operators on 65537-element and 257 x 256 images and subm on
+    65537-element arrays (element count / row length crossing 2^8, 2^15, 2^16), cross and 3x3 box, with and without out=;
+    judged by the Lean driver like the small cases (it handles 65k pixels in under a second)."""
+    import mahotas as mh
+    plans = [('uint8', [65537], 'cross'), ('bool', [257, 256], 'box'), ('int16', [1, 65537], 'cross'), ('uint16', [256, 257], 'box'),
+             ('bool', [65537], 'cross'), ('uint8', [32769, 2], 'box')]
+    if tier == 'quick':
+        plans = rng.sample(plans, 2)
+    out = []
+    for dtype, shape, el in plans:
+        lo, hi = gen.dt_range(dtype)
+        n = int(np.prod(shape))
+        nd = len(shape)
+        if dtype == 'bool':
+            f = [1 if rng.random() < 0.6 else 0 for _ in range(n)]
+            g = [1 if rng.random() < 0.6 else 0 for _ in range(n)]
+        else:
+            base = rng.randint(max(lo, -50) + 2, 60)
+            f = [base + rng.randint(0, 9) for _ in range(n)]
+            g = [base + rng.randint(0, 9) for _ in range(n)]
+        if el == 'cross':
+            Bc = mh.get_structuring_elem(np.zeros((3,) * nd, np.uint8), None)
+            bshape, bc = list(Bc.shape), _ints(Bc)
+        else:
+            bshape, bc = [3] * nd, [1] * 3 ** nd
+        case = dict(dtype=dtype, shape=shape, f=f, g=g, bshape=bshape, bc=bc, n=2, layout=rng.choice(['C', 'F', 'strided']),
+                    layoutg='C', elem=('cross' if el == 'cross' else 'box'), pair='unrelated', usenone=(el == 'cross'), size='threshold')
+        if rng.random() < 0.5:
+            case['outbuf'] = [rng.randint(lo, hi) for _ in range(8)]
+        if rng.random() < 0.5:
+            case['alias'] = True
+        out.append(case)
+    for dtype in (['uint8', 'int16'] if tier == 'quick' else ['uint8', 'int16', 'uint16', 'int8', 'uint64']):
+        a, b = _subm_rand(rng, dtype, 65537)
+        out.append(dict(block='subm-rand', dtype=dtype, a=a, b=b, layout='C', outmode=rng.choice(['none', 'alias-a', 'fresh-dirty']),
+                        size='threshold'))
+    return out
+
+
 def cases(rng, tier):
     out = list(_corpus()) if tier != 'search' else []
     nops = dict(quick=1800, thorough=40000, search=8000)[tier]
@@ -312,19 +561,48 @@ def cases(rng, tier):
             vals = list(range(lo, hi + 1))
             for k in range(0, 256, 16):
                 out.append(dict(block='subm-exh', dtype=dtype, **{'as': vals[k:k + 16]}))
+                # every pair once more with `out=` (in place on a, a dirty separate buffer, in place on b in turn)
+                out.append(dict(block='subm-exh', dtype=dtype, outmode=('alias-a', 'fresh-dirty', 'alias-a', 'alias-b')[(k // 16) % 4],
+                                **{'as': vals[k:k + 16]}))
     for dtype in ['bool', 'uint16', 'uint32', 'uint64', 'int16', 'int32', 'int64', 'uint8', 'int8']:
         per = 2500
         total = nsub if dtype not in ('uint8', 'int8', 'bool') else nsub // 10
         for k in range(0, total, per):
             a, b = _subm_rand(rng, dtype, min(per, total - k))
-            out.append(dict(block='subm-rand', dtype=dtype, a=a, b=b, layout=rng.choice(['C', 'strided', 'negstride', 'offset', 'readonly'])))
+            out.append(dict(block='subm-rand', dtype=dtype, a=a, b=b, layout=rng.choice(['C', 'strided', 'negstride', 'offset', 'readonly']),
+                            outmode=rng.choice(['none', 'none', 'alias-a', 'alias-a', 'fresh-dirty', 'alias-b'])))
     for _ in range(nops):
         out.append(_ops_case(rng))
+    out.extend(_threshold_cases(rng, tier))
     return out
+
+
+def _shrink_big(case, keys):
+    """size-threshold cases: no one-slice-at-a-time deletion (65k evaluations of a 65k-pixel case); cut the longest axis to the
+    powers of two the stream is about, then halve"""
+    shape = list(case['shape'])
+    ax = max(range(len(shape)), key=lambda i: shape[i])
+    rest = int(np.prod(shape)) // shape[ax]
+    for m in (65536 // rest, 32768 // rest, 256, shape[ax] // 2):
+        if 1 <= m < shape[ax]:
+            new = list(shape); new[ax] = m
+            c = dict(case, shape=new)
+            for k in keys:
+                A = np.array(case[k], dtype=object).reshape(shape)
+                c[k] = [int(x) for x in np.take(A, range(m), axis=ax).ravel().tolist()]
+            if int(np.prod(new)) < 4096:
+                c.pop('size', None)      # small enough for the ordinary shrinker
+            yield c
 
 
 def shrink(case):
     if 'block' in case:
+        return
+    if case.get('size') == 'threshold':
+        for k in ('alias', 'outbuf'):
+            if case.get(k):
+                yield {kk: v for kk, v in case.items() if kk != k}
+        yield from _shrink_big(case, ('f', 'g'))
         return
     shape = case['shape']
     F = np.array(case['f'], dtype=object).reshape(shape)
@@ -341,6 +619,12 @@ def shrink(case):
         yield dict(case, n=1)
     if case.get('usenone'):
         yield dict(case, usenone=False)
+    if case.get('alias'):
+        yield {k: v for k, v in case.items() if k != 'alias'}
+    if case.get('outbuf'):
+        yield {k: v for k, v in case.items() if k != 'outbuf'}
+        if any(v != 0 for v in case['outbuf']) and case['dtype'] != 'bool':
+            yield dict(case, outbuf=[7])
     if case['dtype'] != 'bool':
         m = min(case['f'] + case['g'])
         if m > 2:   # translate the values down (keeps them clear of the limits)
